@@ -30,7 +30,7 @@ def jobs_api(rng, thorough):
 
 
 def run(ctx: core.Ctx):
-    ctx.lean_stage(extra_props=("C15x", "Tie"))
+    ctx.lean_stage(extra_props=("C15x", "Tie", "L4Live"))
     b2check.run_b2(ctx, jobs, ["C15"], label="lifecycle scenarios")
     b2check.run_b2(ctx, lambda rng, th: [(gen.conn_port_dies(rng), rng.randrange(10 ** 9), rng.choice([0, 3])) for _ in range(4000 if th else 120)],
                    ["C15"], label="transport ends without raising (port reports closed), monitor only", accept=False)
